@@ -9,6 +9,9 @@ def sh(cmd, cwd=None, env=None, timeout=3600):
     p = subprocess.run(cmd, shell=True, cwd=cwd, env=env or ENV, stdout=subprocess.PIPE, stderr=subprocess.STDOUT, universal_newlines=True, timeout=timeout)
     return p.returncode, p.stdout
 def srcdir(P, X):
+    # the kept copies under /verif (patch.diff, demo_test.go) are used when the sub-agents' scratch worktrees are gone
+    kept = "/verif/%s/%s%s" % ("refactorings" if P.startswith("R") else "seeded", P, X)
+    if not os.path.isdir("/tmp/mut/%s" % P) and os.path.isdir(kept): return kept
     if P.startswith("R"): return "/tmp/mut/%s/out/%s" % (P, X)
     return "/tmp/mut/%s/%s/%s" % (P, {"a": "out", "b": "out", "c": "out2", "d": "out2", "e": "out3", "f": "out3", "g": "out4", "h": "out4", "i": "out5", "j": "out5"}.get(X, "out4"), X)
 def worker(k, q, lock):
@@ -23,6 +26,7 @@ def worker(k, q, lock):
         P, X, pids = spec.split(":"); pids = pids.split()
         mdir = srcdir(P, X); patch = mdir + "/patch.diff"
         res = dict(mutation=mdir, confirm={}, checks={})
+        os.makedirs("/tmp/mut/results", exist_ok=True)
         old = "/tmp/mut/results/%s%s.json" % (P, X)
         if os.path.exists(old):
             try: res["confirm"] = json.load(open(old)).get("confirm", {})
